@@ -252,6 +252,28 @@ def run(R):
                 flow = None
                 for r_ in recs:
                     flow = flow or mcfg.find_path([e.dst for e in mcfg.out_edges(r_.id, N)], comp_nodes, N)
+                # which failure the task gets when several hooks fail: pausing walks the contexts innermost first and keeps the LAST
+                # failure (the outermost context's - what leaving the same nested with-blocks through __exit__ raises); resuming
+                # walks them outermost first and keeps the FIRST
+                tested = [x for x in mcfg.nodes if x.kind == "test" and any(x.ast is y or x.stmt is y for y in ast.walk(h))
+                          and q.atom_test(x.ast)[0] == "isnone" and q.atom_test(x.ast)[1] in errs0]
+                if hook == "pause":
+                    R.check(not tested and bool(recs), "C06.HOOK-ALL", m.qualname + ":which-error", R.site(m, h),
+                            "every failing pause() replaces the recorded error: the last one (the outermost context's) is what the task fails with",
+                            "the pause loop keeps the first failure (`%s`): with two nested contexts whose pause() both fail the task gets the innermost "
+                            "context's error, where leaving the same blocks through __exit__ - and sequential evaluation - raises the outermost one (a NonAsyncContext's "
+                            "AssertionError is masked by an inner context's error)" % (q.src(tested[0].ast) if tested else ""))
+                else:
+                    def first_only(nd, errs0=errs0):
+                        if nd.kind != "test":
+                            return None
+                        k_, s_, pos_ = q.atom_test(nd.ast)
+                        if k_ == "isnone" and s_ in errs0:
+                            return "T" if pos_ else "F"
+                        return None
+                    pf_ = kit.path_avoiding_guard(mcfg, recs, first_only, N, sources=[hn]) if recs else None
+                    R.check(pf_ is None and bool(recs), "C06.HOOK-ALL", m.qualname + ":which-error", R.site(m, h),
+                            "the first failing resume() is the one that is kept", "a later resume() failure can replace the first one", mcfg.fmt_path(pf_) if pf_ else None)
                 if comp_nodes:
                     def recorded(nd, errs=errs):
                         if nd.kind != "test":
@@ -522,6 +544,9 @@ def enter_exit_rules(R, P):
     pause_typestate(R, P)
     from ..roles import Roles as _Roles
     common.unwind_pauses(R, _Roles(R), P + ".UNWIND-PAUSE")
+    # (a task kept across an unwind with a stale dependencies-scheduled flag is taken for blocked on a flush: its contexts get a spurious pause/resume
+    # pair, a NonAsyncContext fails it although it was never suspended for a flush)
+    common.unwind_flag_reset(R, _Roles(R), P + ".UNWIND-FLAG")
     common.typed_stack_elements(R, _Roles(R), P + ".UNWIND-TYPED")
     # the pause loop walks a copy of the task's context table: a pause() hook may leave a context of the same task (a context that
     # delegates to others and exits them when it is paused), which removes an entry - over the live table the next iteration step
